@@ -172,10 +172,14 @@ def check_case(case):
                 break
     # (3b) binary facts whose positions require different types, with distinct and with repeated objects
     allobjs = objects + dom["constants"]
-    for req in names:
-        req2 = nxt(names, req)
-        for (on, ot) in allobjs:
-            for (on2, ot2) in [(on, ot)] + [o for o in allobjs if T.is_sub(o[1], req2)][:1] + [o for o in allobjs if not T.is_sub(o[1], req2)][:1]:
+    combos = [(req, nxt(names, req), on, ot, on2, ot2) for req in names for (on, ot) in allobjs
+              for (on2, ot2) in [(on, ot)] + [o for o in allobjs if T.is_sub(o[1], nxt(names, req))][:1] +
+              [o for o in allobjs if not T.is_sub(o[1], nxt(names, req))][:1]]
+    if len(combos) > 48:       # large forests: an evenly spread sample (the small ones are covered completely)
+        step = len(combos) / 48.0
+        combos = [combos[int(i * step)] for i in range(48)]
+    for req, req2, on, ot, on2, ot2 in combos:
+            if True:
                 st = (frozenset({(f"two-{req}", on, on2)}), {})
                 okp, prob = lib_call(parse_problem_text, sexpr.flat(pddl.problem_tree("pr", "d", objs_txt, st)), domain)
                 exp = T.is_sub(ot, req) and T.is_sub(ot2, req2)
@@ -216,6 +220,39 @@ def check_case(case):
             res.bad("C06/forall-effect-pair/range", {**info, "quantified": [t, nxt(names, t)], "missing": sorted(exp - set(got[0])),
                                                      "extra": sorted(set(got[0]) - exp)})
             break
+    # (5) the applications above grounded operators: the domain must still accept what it accepted before
+    #     (every object is an object), also when the root-typed object is declared as a trailing bare name
+    if not res.disc:
+        for (on, ot) in objects:
+            st = (frozenset({("mark", on), ("isobj", on)}), {})
+            tree = pddl.problem_tree("pr", "d", objs_txt, st)
+            for variant in ("typed", "bare-root"):
+                if variant == "bare-root":
+                    ob = tree[3]
+                    idx = [i for i, x in enumerate(ob) if x == "o-object"]
+                    if not idx or ob[idx[0] + 1:idx[0] + 3] != ["-", "object"]:
+                        continue
+                    tree = tree[:3] + [ob[:idx[0]] + ob[idx[0] + 3:] + ["o-object"]] + tree[4:]
+                okp, prob = lib_call(parse_problem_text, sexpr.flat(tree), domain)
+                n_eval += 1
+                if not okp:
+                    res.bad("C06/problem-fact-after-applications/rejected-conforming",
+                            {**info, "object": [on, ot], "objects": variant, "error": repr(prob)})
+                    return res
+        # ... and the bare root-typed object is no instance of any proper type
+        for req in names:
+            st = (frozenset({(f"is-{req}", "o-object")}), {})
+            tree = pddl.problem_tree("pr", "d", objs_txt, st)
+            ob = tree[3]
+            idx = [i for i, x in enumerate(ob) if x == "o-object"]
+            if idx and ob[idx[0] + 1:idx[0] + 3] == ["-", "object"]:
+                tree = tree[:3] + [ob[:idx[0]] + ob[idx[0] + 3:] + ["o-object"]] + tree[4:]
+                okp, prob = lib_call(parse_problem_text, sexpr.flat(tree), domain)
+                n_eval += 1
+                if okp:
+                    res.bad("C06/problem-fact/accepted-non-conforming",
+                            {**info, "object": ["o-object", "object (declared as a trailing bare name)"], "required": req})
+                    return res
     res.evals = n_eval + len(keys) ** 2
     return res
 
@@ -312,7 +349,12 @@ def gen(ch, tier):
         T[c] = 1 if p == "object" else T[p] + 1
         pairs.append([c, p])
     pairs = ch.shuffle(pairs)
-    # one drawn rendering
+    return {"decl": draw_decl(ch, pairs)}
+
+
+def draw_decl(ch, pairs):
+    """One drawn way of writing the forest `pairs` as :types lines (groups merged or split, roots declared under
+    object / as trailing bare names / only mentioned as parents, lines in any order)."""
     by_parent = {}
     for c, p in pairs:
         by_parent.setdefault(p, []).append(c)
@@ -339,7 +381,7 @@ def gen(ch, tier):
     lines = ch.shuffle(lines)
     if bare:
         lines.append([bare, None])
-    return {"decl": lines}
+    return lines
 
 
 def plan(tier):
